@@ -286,7 +286,7 @@ FUNCTIONS = list(_s.FUNCTIONS) + [
     {'q': 'Pistache::Http::Private::RequestLineStep::apply', 'hoist_all': True, 'dead_ok': ['return State::Again;'], 'contract': """
         requires CUR_PRE(cursor) && FRESH(this, sizeof(*this)) && FRESH(g_req, sizeof(*g_req)) && PTR_EQ(MSG(this), &g_req->vs_base_Message)
         requires vs_exc == 0 && !g_hit_end
-        assigns POS(cursor), vs_exc, vs_exc_code, g_hit_end, g_req->method_, g_req->resource_.size, g_req->query_.o, g_req->vs_base_Message.version_
+        assigns POS(cursor), vs_exc, vs_exc_code, g_hit_end, g_req->method_, g_req->resource_, g_req->query_.o, g_req->vs_base_Message.version_
         ensures POS(cursor) <= LEN(cursor)
         # L1 (Revert discipline): need-more-data and every error leave the cursor where the step started
         ensures vs_exc != 0 ==> POS(cursor) == OLD(POS(cursor))
@@ -576,6 +576,6 @@ PROOFS = [
 ]
 
 DEFAULT_EQ = {
-    'struct vs_astr': ('$.size = 0;', '$.size == 0'),
+    'struct vs_astr': ('$.size = 0; $.src = 0;', '$.size == 0'),
     'struct vs_opaque': ('$.o = 0;', '$.o == 0'),
 }
